@@ -23,7 +23,7 @@ def LoadOk (versions : String → Nat) (l : Load) (out : String × CodeDesc) : P
     between, runs that write bytecode and runs that only read it (`-B`) — with the cache-name patch
     confined to the module's own `get_code` (and applied in every run), every load executes the code
     its current source and the current hook configuration call for -/
-theorem C18_history (c : Cache) (hc : CacheInv c) (runs : List Run) :
+theorem C18_history (c : Cache) (hc : CacheInv c) (runs : List CacheRun) :
     let r := runHistory .getCode c runs
     CacheInv r.1 ∧ r.2.length = runs.length ∧
     ∀ i (hi : i < runs.length) (hi' : i < r.2.length),
@@ -61,8 +61,8 @@ theorem C18_execmodule_violates :
     executes the plain bytecode of run 1 -/
 theorem C18_nowrite_skip_violates :
     let v : String → Nat := fun _ => 1
-    let run1 : Run := ⟨v, true, [⟨"a", none, none⟩]⟩
-    let run2 : Run := ⟨v, false, [⟨"a", some "k", none⟩]⟩
+    let run1 : CacheRun := ⟨v, true, [⟨"a", none, none⟩]⟩
+    let run2 : CacheRun := ⟨v, false, [⟨"a", some "k", none⟩]⟩
     ((runHistory .getCodeIfWriting [] [run1, run2]).2.getD 1 []).getD 0 ("", ⟨0, none⟩) = ("a", ⟨1, none⟩) ∧
     ((runHistory .getCode [] [run1, run2]).2.getD 1 []).getD 0 ("", ⟨0, none⟩) = ("a", ⟨1, some "k"⟩) := by
   decide
